@@ -2,7 +2,7 @@
 import time
 import z3
 
-from .. import core, harness
+from .. import core, harness, models
 from ..core import Explorer, SInt
 from ..harness import Item, fam, plain, ev
 from . import ipcommon as ipc
@@ -41,7 +41,7 @@ def bounds(tier):
     return dict(H1="k=2 arbitrary requests (directions and addresses), v4 configs %r%s" % ([ipc.cfg_key(c) for c in _h1_cfgs(tier)],
                                                                                           "; v6 B in {0,8} (all 129 shared-prefix lengths); k=3 for prefix list none" if tier == "thorough" else "; v6 B=8 with shared-prefix lengths %r only" % V6_QUICK_MS),
                 H2="k=%d requests, every direction pattern, addresses in a %d-bit symbolic window: %r" % (3 if tier == "quick" else 4, 5, [(ipc.cfg_key(c), b, lo, w) for c, b, lo, w in WINDOWS]),
-                hash="all functions")
+                H3="k=2 requests on a memo whose reported size is an arbitrary number (any earlier history length)", hash="all functions")
 
 
 def items(tier, seed):
@@ -52,6 +52,10 @@ def items(tier, seed):
                 heavy = c["prefixes"] is None or bool(c["networks"])
                 for lo, hi in ipc.shards(33, 4 if heavy else 1):
                     out.append(Item("C03", "history2", dict(family=4, cfg=c, dirs=[d1, d2], ms=[lo, hi]), budget_s=600 if tier == "quick" else 2400, obligation="H1-history-k2-v4"))
+    for c in (_h1_cfgs(tier)[:3] if tier == "quick" else _h1_cfgs(tier)):
+        for d2 in (0, 1):
+            out.append(Item("C03", "history2", dict(family=4, cfg=c, dirs=[0, d2], ms=[0, 33] if tier == "thorough" else [8, 25], arbitrary_memo_size=True),
+                            budget_s=600 if tier == "quick" else 2400, obligation="H3-arbitrary-memo-size"))
     v6b = [8] if tier == "quick" else [0, 8]
     for b in v6b:
         for d1 in (0, 1):
@@ -90,9 +94,16 @@ def _run_history(item, res, build):
 
     def h(ex_):
         S = ipc.make(cfg, family)
+        if item.params.get("arbitrary_memo_size"):
+            # the memo may already hold any number of further entries from an arbitrary earlier history: its reported
+            # size is an arbitrary number >= the entries that matter here
+            extra = z3.BitVec("memo_extra", 40)
+            ex_.assume(z3.ULE(extra, 1000000))    # bounded so that a replay can build such a memo
+            S.cache.extra_len = SInt.unsigned(extra)
         reqs, bad, outs = [], [], []
         gen = build(ex_, W)
         prev = None
+        ex_.path_data["md5"] = models.ENV.md5_calls     # the list object is filled as the path runs
         while True:
             try:
                 d, x = gen.send(prev)
@@ -109,13 +120,30 @@ def _run_history(item, res, build):
         if m is None:
             res["finals_unsat"] += 1
             return ("ok", reqs, outs)
-        found.append((m, reqs))
+        pad = None
+        if item.params.get("arbitrary_memo_size"):
+            # smallest memo size that still shows the violation (binary search), so that the replay can build such a memo
+            lo_, hi_ = 0, m.eval(extra, model_completion=True).as_long()
+            best = m
+            while lo_ < hi_:
+                mid = (lo_ + hi_) // 2
+                m2 = ex_.model(z3.Or(*bad), z3.ULE(extra, mid))
+                if m2 is not None:
+                    best, hi_ = m2, m2.eval(extra, model_completion=True).as_long()
+                else:
+                    lo_ = mid + 1
+            m = best
+            pad = m.eval(extra, model_completion=True).as_long()
+        found.append((m, reqs, pad, list(models.ENV.md5_calls)))
         return ("cex", reqs, outs)
     paths = ex.explore(h)
     harness.add_stats(res, ex)
     for p in paths:
         if p.exc is not None and p.model is not None:
-            found.append((p.model, p.extra.get("reqs", [])))
+            pad_ = None
+            if item.params.get("arbitrary_memo_size"):
+                pad_ = ev(p.model, z3.BitVec("memo_extra", 40))
+            found.append((p.model, p.extra.get("reqs", []), pad_, list(p.extra.get("md5", []))))
     nval = 0
     for p in paths[::max(1, len(paths) // 25)]:
         if p.model is None or p.exc is not None or p.result[0] != "ok":
@@ -129,12 +157,20 @@ def _run_history(item, res, build):
         if len(res["samples"]) < 2:
             res["samples"].append(dict(config=ipc.cfg_key(cfg), family=family, history=reqs, answers=want))
     res["validated"] += nval
-    for m, reqs in found[:3]:
+    for m, reqs, pad, calls in found[:3]:
         rq = [["ad"[d], ev(m, x)] for d, x in reqs]
         table, rr = ipc.md5_table_for(m, cfg, family, rq)
-        res["violations"].append(dict(description="an answer depends on the request history (differs from a fresh instance or raises)",
-                                      witness=dict(history=rq, answers=rr["results"], fresh=rr["fresh"], cfg=ipc.cfg_key(cfg)), tags=["history"],
-                                      replay=dict(replayer="ip_history", args=dict(family=family, cfg=cfg, requests=rq, md5_table=table))))
+        # every hash input of the symbolic path (it may include inputs the un-padded plain run above never asked for)
+        for data, dig in calls:
+            table.setdefault(ev(m, data), "%032x" % m.eval(dig, model_completion=True).as_long())
+        args = dict(family=family, cfg=cfg, requests=rq, md5_table=table)
+        if pad is not None:
+            # real md5 for the padding history (the table only covers the two requests; misses fall back to real md5)
+            args["pad_to"] = pad
+        res["violations"].append(dict(description="an answer depends on the request history (differs from a fresh instance or raises)" + (
+                                          "; needs a memo of at least %d further entries" % pad if pad else ""),
+                                      witness=dict(history=rq, answers=rr["results"], fresh=rr["fresh"], cfg=ipc.cfg_key(cfg), memo_padding=pad), tags=["history"],
+                                      replay=dict(replayer="ip_history", args=args)))
         res["status"] = "violated"
     res["vacuity"] = "witnessed" if any(p.model is not None for p in paths) else "VACUOUS"
     if res["vacuity"] != "witnessed":
